@@ -417,6 +417,10 @@ def gen_queue_world(rng: random.Random, n_steps: int, variant: Optional[str] = N
                 v["mech"] = "toyota_corolla"
                 v["soc"] = rng.choice([0.05, 0.3, 0.6, 0.97])
     w["variant"] = variant
+    if rng.random() < 0.3:
+        # the run begins shortly before midnight: vehicles that joined the queue yesterday wait beside those that join today
+        w["start"] = 86400 - dt * rng.randint(4, 30)
+        w["end"] = w["start"] + dt * n_steps
     return w
 
 
@@ -749,7 +753,10 @@ def gen_input_world(rng: random.Random, n_steps: int, dt: Optional[int] = None) 
     prices.sort(key=lambda p: p["time"])
     return {"name": "inputs", "dt": dt, "start": start, "end": t_end, "cancel": cancel, "vehicles": vehicles, "requests": requests,
             "stations": stations, "bases": bases, "prices": prices, "price_key": key, "focus": "inputs", "price_mode": mode,
-            "lazy": rng.random() < 0.5}
+            "lazy": rng.random() < 0.5,
+            # time stamps written as ISO 8601 text with a fraction of a second (the simulator's clock has whole seconds: a stamp
+            # 0.6 s before a step boundary is BEFORE that boundary)
+            "iso_times": rng.random() < 0.4}
 
 
 def gen_match_world(rng: random.Random, n_steps: int) -> Dict[str, Any]:
